@@ -1,5 +1,32 @@
-// stub: check for C06 not built yet
+use chan::e2::{self, Prop};
+use chan::e7;
+use vcore::Level;
+
+const RULE: &str = "histories are Vec<Op> over {send, try_send, async send(timeout 0|inf), when_flushed/when_empty (plain, panicking, re-entering callbacks), async flush, receiver step, resolve batch (ok / error / retry with remainder same|suffix|subset|empty|foreign / panic in future), resolve wait, poll task, arm closure panic, drop sender} with capacity 1-8, followed by a drain phase with a scripted outcome policy; small-scope mode enumerates ALL histories up to length 6 (quick) / 7 (thorough) over a 13-op alphabet with capacity 1 and 2; E7 runs generated multi-thread workloads against the real sync/tokio receivers. Oracle: first-attempt batches are non-empty FIFO prefixes of the accepted-and-not-truncated sequence (partition, order, exactly once), retries are exactly the returned remainder, nothing accepted is left undelivered once the receiver ran to completion, every truncation is counted. Non-trivial = a send between a hand-off and its resolution, or a retry, or a truncation (E7: >=2 sender threads and >=2 batches).";
+
 fn main() {
-    eprintln!("C06: check not built yet");
-    std::process::exit(2);
+    vcore::run(
+        "C06",
+        Level::Exploration,
+        RULE,
+        &[
+            "E2 drives Receiver::exec, tokio::send/flush futures and all sender calls from one thread; because all state shared by the halves is behind one mutex and the receiver runs at most one critical section between two suspension points, every lock-granularity interleaving of the two-thread system corresponds to a placement of sender operations between receiver steps",
+            "the hand-off instant is observed through when_empty callbacks (documented to fire at a point where the current batch is empty) and through the processor invocation",
+            "documented defaults of emit_batcher::bounded are taken as given: at most 10 retries per batch, back-off capped at 10 s, idle wait capped at 500 ms",
+            "E7 samples OS schedules (it does not own them); its oracles are ticket-ordered history invariants that hold for every interleaving; the 30 s watchdogs are the only use of wall-clock time",
+            "condvar/oneshot wake-up paths (sync.rs, tokio.rs) are only exercised by E7, i.e. sampled",
+        ],
+        |s| {
+        s.require("send-between-handoff-and-resolution", 2000);
+        s.require("retry", 2000);
+        s.require("truncation", 2000);
+        s.require("foreign-remainder", 100);
+        s.require("e7:truncation", 20);
+        s.require("e7:multi-item-batch", 100);
+            s.gen("e2-random", s.n(400_000, 12_000_000), || e2::case(e2::W_C06), |c, cx| e2::check(c, Prop::C06, cx));
+            let max_len = if s.quick() { 6 } else { 7 };
+            s.enumerate("e2-small-scope", e2::small_cases(max_len, &[1, 2]), |c, cx| e2::check(&c.to_case(), Prop::C06, cx));
+            s.gen("e7-os-threads", s.n(3_000, 150_000), || e7::workload(1), |c, cx| e7::check(c, Prop::C06, cx));
+        },
+    )
 }
